@@ -92,6 +92,7 @@ func c13(c *Ctx) {
 		c.check(q.bypass() == nil, r, fnName(f)+":closed-tx-refused", c.pos(f.Pos()), "store commit is dominated by closed==false", "a cancelled or already committed transaction can be committed")
 		c.ruleOrder(r, f, "closed=true", storeTo("OngoingTx.closed"), "st.commit", callTo(storeT+"commit"), nil, 1)
 	}
+	c13PgDescribeDoesNotExecute(c, "C13.11/pgsql-describe-does-not-execute")
 	c12QueryFailureAborts(c, "C13.1/query-path-failure-aborts")
 	c13PgAbortedBlock(c, "C13.10/pgsql-failed-block-runs-nothing-on-its-own")
 	c13DmlFailureIsReported(c, "C13.9/failed-dml-is-reported")
@@ -573,4 +574,47 @@ func c13PgAbortedBlock(c *Ctx, r string) {
 	} else {
 		c.ok(r, fnName(f)+":no-statement-runs-in-a-failed-block", c.pos(f.Pos()), "statements reach the engine only across `txStatus != failed`")
 	}
+}
+
+// c13PgDescribeDoesNotExecute: to tell the client the shape of a result the session runs the statement with no
+// parameters and reads the columns of the reader. For DML ... RETURNING that IS the execution: done in the session's
+// transaction (or in autocommit) the statement takes effect at Parse/Describe time and again at Execute. The describe
+// step therefore runs in a transaction of its own that is cancelled on every path.
+func c13PgDescribeDoesNotExecute(c *Ctx, r string) {
+	f := c.mustFn(r, "pkg/pgsql/server.(*session).inferParamAndResultCols")
+	if f == nil {
+		return
+	}
+	isNewTx := func(v ssa.Value) bool {
+		ex, ok := v.(*ssa.Extract)
+		if !ok || ex.Index != 0 {
+			return false
+		}
+		cl, ok := ex.Tuple.(*ssa.Call)
+		return ok && (cl.Call.IsInvoke() && cl.Call.Method.Name() == "NewSQLTx" || strings.HasSuffix(calleeName(&cl.Call), ".NewSQLTx"))
+	}
+	runs := sites(f, func(in ssa.Instruction) bool {
+		cc := callOf(in)
+		return cc != nil && cc.IsInvoke() && cc.Method.Name() == "SQLQueryPrepared"
+	})
+	if len(runs) == 0 {
+		c.okTrivial(r, fnName(f)+":describe", c.pos(f.Pos()), "the describe step does not run the statement")
+		return
+	}
+	for i, in := range runs {
+		args := callOf(in).Args
+		own := len(args) >= 2 && dependsOn(args[1], isNewTx)
+		c.check(own, r, fmt.Sprintf("%s:SQLQueryPrepared#%d:in-a-transaction-of-its-own", fnName(f), i), c.pos(in.Pos()), "the statement described may run in a transaction opened for that purpose",
+			"the describe step runs the statement in the session's own transaction (or in autocommit): an INSERT ... RETURNING takes effect when it is parsed, and again when it is executed")
+	}
+	n := 0
+	allInstrs(f, false, func(in ssa.Instruction) {
+		cl, ok := in.(*ssa.Call)
+		if !ok || !(cl.Call.IsInvoke() && cl.Call.Method.Name() == "NewSQLTx") {
+			return
+		}
+		n++
+		q := &pathQ{fn: f, from: []ssa.Instruction{in}, to: isReturn, via: callTo(sqlTxT + "Cancel"), deferVia: true, barrier: errEdgeOf(in)}
+		c.check(q.bypass() == nil, r, fmt.Sprintf("%s:describe-transaction#%d:cancelled", fnName(f), n), c.pos(in.Pos()), "cancelled on every path", "the transaction opened to describe a statement is not cancelled on every path: what the statement wrote can be committed")
+	})
 }
